@@ -28,7 +28,8 @@ RULE = ("histories of write calls: (a) every composition of n frames (n<=5 quick
         "(a write call carrying no frame) at every position; (f) the reporter shape: one frame per call handed over "
         "without the frame axis, alone and mixed with batched calls, and with flush after every call + kill; (g) the same "
         "singleton histories and crash points driven through DCDReporter / NetCDFReporter / XTCReporter.report() "
-        "(OpenMM's unit module replaced by a stand-in). Non-trivial: more "
+        "(OpenMM's unit module replaced by a stand-in); (h) per-frame cells whose kind (orthogonal / triclinic) changes inside "
+        "one write call and between calls, lengths AND angles compared frame by frame, 8 formats x every composition. Non-trivial: more "
         "than one write call or a schema change or a crash; distinct by hash of (format, history, driver)")
 TRUSTED = ["harness/impl/writer_impl.py (feeds the writers, identifies frames by xyz[i,0,0], time and cell length)",
            "generator harness/props/C19.py; comparison with the model is done by vm_compute inside coqc",
@@ -54,6 +55,8 @@ CRASH_FORMATS = {"h5": True, "nc": False, "dcd": True, "xtc": False}   # value: 
 SQUEEZABLE = {"h5", "nc", "xtc", "trr", "dcd", "mdcrd", "lammpstrj", "dtr"}   # write() accepts one frame without the frame axis
 # reporters that can be driven without OpenMM (format, cell, time as the reporter passes them); HDF5Reporter needs an
 # OpenMM topology object
+# formats that store a full (triclinic) cell per frame (mdcrd stores lengths only, xyz none, pdb is out of scope)
+SHEARABLE = {"h5", "nc", "xtc", "trr", "dcd", "dtr", "lammpstrj", "gro"}
 REPORTERS = [("dcd", True, False), ("nc", True, True), ("nc", False, True), ("nc", False, False), ("xtc", True, True)]
 
 
@@ -121,6 +124,20 @@ def build_cases(ctx):
                     ops = [W([10], cell, time) + [True], W([11, 12], cell, time), W([13], cell, time) + [True]]
                     cases.append({"kind": "partition", "fmt": fmt, "mode": "w", "pre": [], "squeezed": True,
                                   "ops": ops, "cell": cell, "time": time})
+    # (a5) per-frame cells whose KIND changes inside one write call and between calls: frames with an odd (even) id
+    # have a triclinic cell (85/80/75 degrees), the others an orthogonal one; md.load must return, frame by frame, the
+    # lengths AND angles handed in, for every partition and for the one-shot write
+    for fmt in sorted(SHEARABLE):
+        for shear in ("odd", "even"):
+            comps = []
+            for n in ((3,) if quick else (2, 3, 4, 5)):
+                comps += list(compositions(n))
+            if quick:
+                comps += [[4], [1, 3], [2, 2], [3, 1]]
+            for parts in comps:
+                cases.append({"kind": "partition", "fmt": fmt, "mode": "w", "pre": [], "shear": shear,
+                              "ops": history_from_parts(parts, True, fmt in STORES_TIME), "cell": True,
+                              "time": fmt in STORES_TIME})
     # (a4) the same singleton histories driven through mdtraj's reporters (report() = write one frame + flush)
     for fmt, cell, time in REPORTERS:
         for n in ((3,) if quick else (1, 2, 3, 5)):
@@ -426,10 +443,11 @@ def run_cases(ctx, cases):
     for hi, (c, o) in enumerate(hist):
         ws = write_ops(c)
         nontrivial = len(ws) > 1
-        ctx.count({"fmt": c["fmt"], "mode": c["mode"], "pre": c["pre"], "ops": c["ops"], "via": c.get("via", "file object")},
+        ctx.count({"fmt": c["fmt"], "mode": c["mode"], "pre": c["pre"], "ops": c["ops"], "via": c.get("via", "file object"),
+                   "shear": c.get("shear")},
                   nontrivial=nontrivial,
                   bucket="%s/%s%s" % (c["fmt"], c["kind"], "-reporter" if c.get("via") else "-emptypart" if c.get("empty_part")
-                                      else "-squeezed" if c.get("squeezed") else ""))
+                                      else "-cellkind" if c.get("shear") else "-squeezed" if c.get("squeezed") else ""))
         fmt = c["fmt"]
         vn = VNAME.get(explained_case(hi, fmt))
         acc, sch = expected_accept(c)
@@ -464,6 +482,10 @@ def run_cases(ctx, cases):
             if only_time:
                 ctx.fail("%s: the stored times depend on how the frames were split into write calls" % fmt, c,
                          observed=load, expected=want, tags=dict(tags, what="time_partition"))
+            elif c.get("shear") and got_obs is not None and got_obs["frames"] == want["frames"] and got_obs["time"] == want["time"]:
+                ctx.fail("%s: a frame is loaded with a cell (lengths/angles) other than the one handed to write() when the kind "
+                         "of cell changes between the frames of a call" % fmt, c, observed=load, expected=want,
+                         tags=dict(tags, what="cell_kind"))
             elif c["kind"] == "partition" or all(acc):
                 ctx.fail("%s: incremental writing differs from one-shot writing" % fmt, c, observed=load, expected=want,
                          tags=dict(tags, what="partition", with_time=c.get("time"), with_cell=c.get("cell")))
@@ -471,14 +493,14 @@ def run_cases(ctx, cases):
                 ctx.fail("%s: after a refused write the file no longer loads with exactly the accepted frames" % fmt, c,
                          observed=load, expected=want, tags=dict(tags, what="refused_not_atomic"))
         if c["kind"] == "partition" and c["mode"] == "w":
-            key = (fmt, c["cell"], c["time"], sum(len(op[1]) for op in ws))
+            key = (fmt, c["cell"], c["time"], sum(len(op[1]) for op in ws), c.get("shear"))
             if len(ws) == 1:
                 oneshot[key] = got_obs
     for hi, (c, o) in enumerate(hist):
         # partitioned result against the implementation's own one-shot result (needs no expectation of mine)
         if c["kind"] == "partition" and c["mode"] == "w":
             ws = write_ops(c)
-            key = (c["fmt"], c["cell"], c["time"], sum(len(op[1]) for op in ws))
+            key = (c["fmt"], c["cell"], c["time"], sum(len(op[1]) for op in ws), c.get("shear"))
             load = o["load"]
             got_obs = None if "load_err" in load else {"frames": load["frames"], "time": load["time"], "cell": load["cell"]}
             if key in oneshot and oneshot[key] != got_obs and all("ok" in x for x in o["ops"][:len(ws)]):
